@@ -153,8 +153,25 @@ def run(rep, tier):
                         "intermediate lists of ruma are read from its tracing events (no source hook)"]
 
 
+def hand_made_histories(rep):
+    """Histories no well-behaved server produces but the code accepts: resolve must return (an answer or an error)."""
+    _, out, _ = vlib.run_harness(["probes", "c07"], timeout=120)
+    k = 0
+    for ln in out.splitlines():
+        r = json.loads(ln)
+        k += 1
+        if not r["returned"]:
+            rep.violation("determinism/resolve-does-not-return/%s" % r["probe"], r)
+        elif r["result"].startswith("panic"):
+            rep.violation("determinism/panic-or-error", r)
+    if k < 1:
+        raise vlib.ToolError("the hand-made histories did not run")
+    rep.part("hand_made_histories", probes=k)
+
+
 def run06(rep, tier):
     n = nontriv = runs = 0
+    hand_made_histories(rep)
     for c, o in stream(rep, "C06", tier, 11 if tier == "thorough" else 5):
         n += 1
         if "panic" in o or "resolved" not in o:
